@@ -238,11 +238,12 @@ Definition render_rng (r : rng) : str :=
 
 Definition series_col_number (depth idx : N) : N := 1 + depth + idx.
 
-(** categories_ref: the right column is chr(ord(A) + depth - 1), not _column_reference. *)
+(** categories_ref: ValueError without categories; the right column through
+    _column_reference (since the fix of the chr arithmetic). *)
 Definition categories_rng (depth leafs : N) : rng := mk_rng 1 2 depth (leafs + 1).
 Definition categories_ref_text (depth leafs : N) : res str :=
   if depth =? 0 then Err ValueErr
-  else Ok (render_range [65] 2 [65 + depth - 1] (leafs + 1)).
+  else bind (column_reference depth) (fun col => Ok (render_range [65] 2 col (leafs + 1))).
 
 Definition series_name_rng (depth idx : N) : rng :=
   let c := series_col_number depth idx in mk_rng c 1 c 1.
@@ -257,9 +258,11 @@ Definition values_ref_text (depth idx len : N) : res str :=
 
 Definition len_N {A} (l : list A) : N := N.of_nat (length l).
 
-(** _write_cat_column *)
+(** _write_cat_column: a datetime label is written as the date of its day. *)
+Definition date_only (v : pyval) : pyval :=
+  match v with PDateTime ord _ => PDate ord | _ => v end.
 Definition write_cat_column (sh : sheet) (col : N) (level : list (N * pyval)) : sheet :=
-  fold_left (fun sh e => xl_write sh (fst e + 1) col (snd e) true) level sh.
+  fold_left (fun sh e => xl_write sh (fst e + 1) col (date_only (snd e)) true) level sh.
 
 (** _write_categories: level idx goes to column depth - idx - 1.  (The subtraction is
     truncated here; Xlsx_proofs.levels_length shows idx < depth whenever depth >= 1.) *)
@@ -301,16 +304,15 @@ Definition excel_date_number (date_1904 : bool) (ord : Z) : Z :=
   let days := (ord - (if date_1904 then ord_1904_01_01 else ord_1899_12_31))%Z in
   if negb date_1904 && (59 <? days)%Z then (days + 1)%Z else days.
 
-Definition t_None : str := [78; 111; 110; 101].
 
-(** Category.numeric_str_val: str(self._label) prints None as None. *)
+(** Category.numeric_str_val: str(self.label), a missing label being the empty string. *)
 Definition numeric_str_val (date_1904 : bool) (l : pyval) : cval :=
   match l with
   | PDate ord => CNum (excel_date_number date_1904 ord) 1
   | PDateTime ord _ => CNum (excel_date_number date_1904 ord) 1
   | PNum n d => CNum n d
   | PStr s => CStr s
-  | PNone => CStr t_None
+  | PNone => CStr []
   end.
 
 (** str(category.label), as written into string caches. *)
